@@ -1,6 +1,110 @@
+(* C15 - Any sequence of cell-builder calls leaves a well-formed, valid cell.
+
+   step true / run true  = Cell.add_segment, add_unbranched_segments, add_segment_group,
+                           add_unbranched_segment_group, reorder_segment_groups, optimise_segment_groups and
+                           the set_* property helpers, with the repairs of fixes/C14-*.patch and fixes/C15-*.patch
+                           (run false = the methods as shipped at the pinned commit)
+   finish                = the documented closing step: reorder_segment_groups(); optimise_segment_groups()
+   init_of true / false  = component_factory("Cell", ...)  /  Cell(...) + setup_nml_cell(use_convention=False)
+   run_ok                = every operation of the sequence respects op_ok in the state it is applied to:
+                           a group id handed to add_segment / add_unbranched_segments is not one of
+                           all/soma_group/axon_group/dendrite_group and is always used with the same
+                           (use_convention, seg_type).  The proof forces this (C15_mixed_type_refuted).
+   Quantifiers: every finite operation sequence with any parents, fractions, group ids, types, explicit or
+   automatic ids, with or without proximal point, any reorder/optimise flags.  No length bound. *)
 From Coq Require Import String List ZArith Bool.
-From LNML Require Import Model.Groups Model.Builder.
+From LNML Require Import Model.Groups Model.Builder Proofs.GroupsP Proofs.BuilderSegP Proofs.BuilderGroupP
+     Proofs.BuilderOrderP Proofs.BuilderP Proofs.BuilderC15P Proofs.BuilderValidP.
 Import ListNotations.
-Theorem C15_stub : forall c, finish c = finish c.
-Proof. reflexivity. Qed.
-Print Assumptions C15_stub.
+Open Scope string_scope.
+
+(* the invariant is kept by every single operation that returns normally *)
+Theorem C15_step : forall c o c',
+  Inv c -> op_ok c o = true -> step true c o = BRet c' -> Inv c'.
+Proof. exact Inv_step. Qed.
+Print Assumptions C15_step.
+
+(* ... hence by every sequence (induction over the operation list), and after the closing step the cell
+   is well formed: unique ids, existing parents, "all" = every segment added under the convention,
+   soma/axon/dendrite group = exactly the segments added with that type (each reported once), every
+   group defined before any group that includes it *)
+Theorem C15_reach : forall factory ops c,
+  run true ops (init_of factory) = BRet c -> run_ok true ops (init_of factory) = true ->
+  exists c', finish c = BRet c' /\ WellFormed c' /\ DefinedBeforeUse (groups c') /\ wellformed c' = true.
+Proof. exact builder_reach_meaning. Qed.
+Print Assumptions C15_reach.
+
+(* what the invariant says, in terms of what get_all_segments_in_group returns *)
+Theorem C15_invariant_meaning : forall c, Inv c -> WellFormed c.
+Proof. exact Inv_WellFormed. Qed.
+Print Assumptions C15_invariant_meaning.
+
+Theorem C15_all_is_every_segment : forall c, WellFormed c -> lookup (groups c) "all" <> None ->
+  (forall s, In s (segs c) -> stag s <> None) -> resolves_exactly c "all" (ids c).
+Proof. exact all_is_everything. Qed.
+Print Assumptions C15_all_is_every_segment.
+
+(* an explicit id already in use is refused with ValueError (unless an earlier check of the same call
+   raises first); the call never returns *)
+Theorem C15_dup_refused : forall c prox z name parent frac group conv ty reord opt,
+  z <> 0%Z -> In z (ids c) ->
+  exists e, add_segment true c prox (Some z) name parent frac group conv ty reord opt = BErr e /\
+            (e = BDupId \/ e = BNoParent \/ e = BValidation \/ e = BBadInput).
+Proof. exact dup_id_refused. Qed.
+Print Assumptions C15_dup_refused.
+
+(* explicit or automatic, the id of a new segment is not yet in the cell *)
+Theorem C15_new_id_is_new : forall c prox seg_id name parent frac group conv ty reord opt c',
+  add_segment true c prox seg_id name parent frac group conv ty reord opt = BRet c' ->
+  exists s, segs c' = (segs c ++ [s])%list /\ ~ In (sid s) (ids c).
+Proof. exact new_id_is_new. Qed.
+Print Assumptions C15_new_id_is_new.
+
+(* validity clause, PARTIAL: when every input meets the schema facets (op_facets: explicit ids >= 0, group
+   ids NmlIds, property values matching their unit pattern) and the cell has a segment and its three basic
+   membrane properties, the model's validity predicate holds after the closing step.  valid_cell is what
+   the model predicts for validate(recursive=True) AND for libxml2 on the written file; that prediction
+   is compared with both verdicts on every generated sequence (valid and invalid ones) in every run.
+   Missing for the full clause: a proof that valid_cell implies XSD validity of the exported tree (C02). *)
+Theorem C15_valid_partial : forall factory ops c c',
+  run true ops (init_of factory) = BRet c -> run_ok true ops (init_of factory) = true -> Forall op_facets ops ->
+  finish c = BRet c' ->
+  segs c <> [] ->
+  has_kind SpikeThresh c = true -> has_kind InitMembPotential c = true -> has_kind SpecificCapacitance c = true ->
+  valid_cell c' = true.
+Proof. exact builder_valid_partial. Qed.
+Print Assumptions C15_valid_partial.
+
+(* hypotheses satisfiable: a cell with soma, two unbranched sections (deferred reorder/optimise), an
+   explicit id, a plain group and the basic biophysical properties; the model also predicts it valid *)
+Theorem C15_hypotheses_satisfiable : exists c c',
+  run true typical_ops init_factory = BRet c /\ run_ok true typical_ops init_factory = true /\
+  finish c = BRet c' /\ wellformed c' = true /\ valid_cell c' = true /\
+  map gid (groups c') = ["dend_1"; "axon_1"; "extra"; "soma_group"; "axon_group"; "dendrite_group"; "all"] /\
+  ids c' = [0; 1; 2; 3; 4; 5; 40]%Z.
+Proof. exact typical_ok. Qed.
+Print Assumptions C15_hypotheses_satisfiable.
+
+(* ---- the methods as shipped (fx = false) violate the property ---- *)
+Theorem C15_dup_v0_refuted : exists c, run false dup_ops init_factory = BRet c /\ ids c = [5; 5]%Z.
+Proof. exact dup_v0_refuted. Qed.
+Print Assumptions C15_dup_v0_refuted.
+
+Theorem C15_auto_id_v0_refuted : exists c, run false auto_ops init_factory = BRet c /\ ids c = [2; 1; 2]%Z.
+Proof. exact auto_v0_refuted. Qed.
+Print Assumptions C15_auto_id_v0_refuted.
+
+Theorem C15_group_all_v0_refuted : exists c, run false all_ops init_factory = BRet c /\
+  finish_gen false c = BErr BRecursion /\ exists g, In g (groups c) /\ gid g = "all" /\ In "all" (includes g).
+Proof. exact all_v0_refuted. Qed.
+Print Assumptions C15_group_all_v0_refuted.
+
+(* ---- the hypothesis run_ok cannot be dropped (known finding, no small repair) ---- *)
+Theorem C15_mixed_type_refuted : exists c c',
+  run true mixed_ops init_factory = BRet c /\ finish c = BRet c' /\ run_ok true mixed_ops init_factory = false /\
+  wellformed c' = false /\
+  resolve (ids c') (default_fuel (groups c')) (groups c') "axon_group" = Ret [1; 2]%Z /\
+  resolve (ids c') (default_fuel (groups c')) (groups c') "dendrite_group" = Ret [1; 2]%Z /\
+  tagged Axon c' = [1%Z] /\ tagged Dendrite c' = [2%Z].
+Proof. exact mixed_type_refuted. Qed.
+Print Assumptions C15_mixed_type_refuted.
